@@ -31,7 +31,9 @@ from vlib import paths
 #                 (fixes/C14-6.patch); 0: `... else N` as found - Processor(dims=[...]) raises NameError
 #   cu    = 1: the step branch of _fill_coeff advances its index with the bounded `while` loop (catches up over several
 #              slots, fixes/C14-7.patch); 0: `if old_tlist[old_ind + 1] <= t + tol: old_ind += 1` as found
-FLAGS = {"zl": 0, "ndmin": 0, "hold": 0, "hdr": 0, "dimsonly": 0, "cu": 0, "cubic": "fun _ => .notAKnot", "read": False}
+#   kk    = 1: get_full_tlist drops a point when it is within tol of the last KEPT point (loop, fixes/C14-8.patch);
+#              0: `full_tlist[1:][np.diff(full_tlist) > tol]` as found (within tol of its predecessor, kept or not)
+FLAGS = {"zl": 0, "ndmin": 0, "hold": 0, "hdr": 0, "dimsonly": 0, "cu": 0, "kk": 0, "cubic": "fun _ => .notAKnot", "read": False}
 
 _CUBIC_HEAD = ["sp = CubicSpline(old_tlist, old_coeffs)", "new_coeff = sp(full_tlist)"]
 _CUBIC_ZERO = ["new_coeff *= full_tlist <= old_tlist[-1]", "new_coeff *= full_tlist >= old_tlist[0]"]
@@ -122,7 +124,28 @@ def detect_flags():
         raise TranslatorError("np.savetxt call of save_coeff not found")
     cubic, hold = _cubic_branch(_func(t_pulse, "_fill_coeff"))
     return {"zl": zl, "ndmin": ndmin, "hold": hold, "hdr": hdr, "dimsonly": _dims_only(t_proc), "cu": _advance_shape(t_pulse),
-            "cubic": cubic, "read": True}
+            "kk": _dedup_shape(t_proc), "cubic": cubic, "read": True}
+
+
+_DEDUP_OLD = ["full_tlist = np.concatenate((full_tlist[:1], full_tlist[1:][np.diff(full_tlist) > tol]))", "return full_tlist"]
+_DEDUP_NEW = ["kept = []",
+              "for ind in range(len(full_tlist)):\n    if not kept or full_tlist[ind] - full_tlist[kept[-1]] > tol:\n        kept.append(ind)",
+              "return full_tlist[kept]"]
+
+
+def _dedup_shape(t_proc):
+    """the statements of Processor.get_full_tlist after `full_tlist = np.unique(np.sort(np.hstack(full_tlist)))`"""
+    fn = _func(t_proc, "get_full_tlist")
+    stm = [ast.unparse(x) for x in fn.body if not (isinstance(x, ast.Expr) and isinstance(getattr(x, "value", None), ast.Constant))]
+    key = "full_tlist = np.unique(np.sort(np.hstack(full_tlist)))"
+    if key not in stm:
+        raise TranslatorError("get_full_tlist: sorting / np.unique statement not recognised")
+    tail = stm[stm.index(key) + 1:]
+    if tail == _DEDUP_OLD:
+        return 0
+    if tail == [ast.unparse(ast.parse(x).body[0]) for x in _DEDUP_NEW]:
+        return 1
+    raise TranslatorError("get_full_tlist: de-duplication not recognised: " + "; ".join(tail)[:300])
 
 
 _ADV_TEST = "old_tlist[old_ind + 1] <= t + tol"
@@ -191,7 +214,11 @@ def flags():
 
 def with_flags(line):
     f = flags()
-    if line.startswith(("coeffs ", "fill ")):
+    if line.startswith("coeffs "):
+        return line + f" zl={f['zl']} cu={f['cu']} kk={f['kk']}"
+    if line.startswith("tlist "):
+        return line + f" kk={f['kk']}"
+    if line.startswith("fill "):
         return line + f" zl={f['zl']} cu={f['cu']}"
     if line.startswith("readshape "):
         return line + f" ndmin={f['ndmin']}"
@@ -1004,7 +1031,12 @@ def coeffs_mismatch(spec, T, C, exact=False):
         for k in range(len(T)):
             t = inside(T[k], T[k + 1]) if k + 1 < len(T) else T[k] + max(1e-9, 4 * abs(T[k]) * 2.0 ** -52)
             sv = chan_value(ch, t)
-            if abs(C[m][k] - sv) > (0 if exact else 1e-12):
+            ok = abs(C[m][k] - sv) <= (0 if exact else 1e-12)
+            if not ok and k + 1 < len(T) and T[k + 1] - T[k] <= 3e-10:
+                # a slice of the order of the resolution: points of the channel within tol of T_k are merged into T_k, the value
+                # is the step function at SOME time within tol of T_k (Lean: fill_catchup_near); the slice contributes O(tol)
+                ok = any(abs(C[m][k] - chan_value(ch, x)) <= 1e-12 for x in (T[k], T[k] + 1e-10, T[k] - 1e-10))
+            if not ok:
                 where = (f"on the merged slice [{T[k]!r}, {T[k + 1]!r})" if k + 1 < len(T) else f"at the end point {T[k]!r}")
                 return (f"get_full_coeffs: channel {m} {where} is {float(C[m][k])!r}, its stated coefficient there is {float(sv)!r}"
                         + (f" (own grid {ch['tlist']!r})" if ch.get("tlist") is not None and len(ch["tlist"]) <= 8 else ""))
@@ -1446,6 +1478,78 @@ TINY_STEP_WITNESS = {"kind": "evolution", "spec": {
               {"targets": [0], "tlist": [0.0, 1.0], "coeff": [0.3]}]}}
 
 
+def _dedup(points, tol, kept_rule):
+    out = [points[0]]
+    prev = points[0]
+    for x in points[1:]:
+        if x - prev > tol:
+            out.append(x)
+            prev = x
+        elif not kept_rule:
+            prev = x
+    return out
+
+
+def chained_duplicates(w):
+    """class `chained-near-duplicates`: in the sorted union of the channel points some point is within tol = 1e-10 of its
+    predecessor but more than tol above the last point a de-duplication that compares with the last KEPT point keeps (a chain
+    p, p + 0.7 tol, p + 1.4 tol; a slot shorter than tol that starts just after another channel's point).  get_full_tlist as
+    found drops it, and the channel keeps its old coefficient over the whole next merged slot.  Decided on the INPUT."""
+    spec = w.get("spec") if w.get("kind") in ("evolution", "cubic", "run_state") else None
+    if spec is None:
+        return False
+    pts = sorted({float(t) for ch in spec["chans"] if ch.get("tlist") is not None for t in ch["tlist"]})
+    if len(pts) < 3:
+        return False
+    return _dedup(pts, 1e-10, True) != _dedup(pts, 1e-10, False)
+
+
+def make_chain_spec(rng):
+    """2-3 step channels with a chain of near-duplicates around a point p: p, p + a tol, p + b tol with 0.3 <= a, b - a <= 0.9
+    and b >= 1.1 (distinct channels, or two of them in one channel: a slot shorter than tol that starts just after another
+    channel's point); the coefficients change at every point of the chain"""
+    nsub = rng.randint(1, 2)
+    dims = [rng.choice([2, 3]) for _ in range(nsub)]
+    tol = 1e-10
+    p0 = rng.choice([0.5, 1.0, 1.75, 3.0]) * rng.choice([1.0, 1.0, 8.0])
+    a = rng.uniform(0.3, 0.9)
+    b = a + rng.uniform(max(0.3, 1.1 - a), 0.9)
+    chain = [p0, p0 + a * tol, p0 + b * tol]
+    if rng.random() < 0.3:
+        chain.append(chain[-1] + rng.uniform(0.3, 0.9) * tol)
+    end = p0 + rng.choice([1.0, 2.5])
+    owner = [rng.randrange(3) for _ in chain]
+    owner[0], owner[1] = 0, rng.choice([1, 1, 2])
+    if rng.random() < 0.5:
+        owner[2] = owner[1]                       # a sub-resolution slot of one channel right after channel 0's point
+    chans = []
+    for k in sorted(set(owner)):
+        mine = [x for x, o in zip(chain, owner) if o == k]
+        before = sorted(rng.uniform(0.1, 0.9) * p0 for _ in range(rng.randint(0, 1)))
+        tl = [0.0] + before + mine + [end + 0.25 * k]
+        cs, last = [], 0.0
+        for _ in range(len(tl) - 1):
+            c = last
+            while abs(c - last) < 0.4:
+                c = rng.choice([-1, 1]) * rng.uniform(0.3, 2.0)
+            cs.append(c)
+            last = c
+        chans.append({"targets": rng.sample(range(nsub), rng.randint(1, min(2, nsub))), "tlist": tl, "coeff": cs})
+    return {"dims": dims, "seed": rng.randrange(2**31), "chans": chans, "dm": rng.random() < 0.3,
+            "drift": {"targets": rng.sample(range(nsub), 1)} if rng.random() < 0.5 else None}
+
+
+# (a) three channels with the points 1, 1 + 0.7e-10, 1 + 1.4e-10; (b) a slot of 0.8e-10 that starts 0.5e-10 after another
+# channel's point
+CHAIN_WITNESS = {"kind": "evolution", "spec": {"dims": [2], "seed": 3, "drift": None, "dm": False, "chans": [
+    {"targets": [0], "tlist": [0.0, 1.0, 2.0], "coeff": [0.5, -0.8]},
+    {"targets": [0], "tlist": [0.0, 1.0 + 0.7e-10, 2.0], "coeff": [1.1, 0.3]},
+    {"targets": [0], "tlist": [0.0, 1.0 + 1.4e-10, 2.0], "coeff": [-0.9, 1.7]}]}}
+CHAIN_WITNESS_2 = {"kind": "evolution", "spec": {"dims": [2], "seed": 4, "drift": None, "dm": False, "chans": [
+    {"targets": [0], "tlist": [0.0, 1.0, 2.0], "coeff": [0.5, -0.8]},
+    {"targets": [0], "tlist": [0.0, 1.0 + 0.5e-10, 1.0 + 1.3e-10, 2.0], "coeff": [1.1, 4.0, 0.3]}]}}
+
+
 def class_recorded(cls="grid-step-below-tol"):
     from vlib.core import load_findings
     return any(f.get("status") == "known" and f.get("class") == cls for f in load_findings("C14"))
@@ -1685,6 +1789,13 @@ class C14(PropertyCheck):
         "QipVerif.C14.run_analytically_is_time_ordered_w",
         "QipVerif.C14.catchup_counterexample",
         "QipVerif.C14.fill_catchup_near",
+        "QipVerif.C14.variants_k_false",
+        "QipVerif.C14.merged_strict_k",
+        "QipVerif.C14.merged_contains_k",
+        "QipVerif.C14.merged_covers",
+        "QipVerif.C14.C14_counterexample_chained",
+        "QipVerif.C14.fullCoeffs_eq_repaired_k",
+        "QipVerif.C14.run_analytically_is_time_ordered_k",
     ]
     technique = ("Lean 4 proof (induction over the merged grid with the slot invariant, exact rationals; Mathlib's matrix exponential, "
                  "its derivative and Gronwall's inequality for the time-ordered product) + model/implementation correspondence; the "
@@ -1784,7 +1895,8 @@ class C14(PropertyCheck):
         ctx.log(f"variants of {paths.REPO}: step padding zeroes the last element of a full-length coefficient = {bool(FLAGS['zl'])}, "
                 f"np.loadtxt ndmin = {FLAGS['ndmin']}, save_coeff always writes the header line = {bool(FLAGS['hdr'])}, "
                 f"Processor(dims=...) without num_qubits supported = {bool(FLAGS['dimsonly'])}, "
-                f"_fill_coeff catches up over several slots = {bool(FLAGS['cu'])}")
+                f"_fill_coeff catches up over several slots = {bool(FLAGS['cu'])}, "
+                f"get_full_tlist compares with the last kept point = {bool(FLAGS['kk'])}")
         return [gen] if old != text else []
 
     # -----------------------------------------------------------------------------------------
@@ -2238,7 +2350,22 @@ class C14(PropertyCheck):
         for spec in [dict(NEAR_WITNESS["spec"]), dict(NEAR_WITNESS_2["spec"])] + [make_near_spec(rng, S=NEAR_SCALES[i % 4]) for i in range(24 * k)]:
             stream.append((spec, near_tags(spec) if spec.get("near") else ["near-coincident distinct points"]))
             nnear += 1
+        # chains of near-duplicates (p, p + 0.7 tol, p + 1.4 tol; a sub-resolution slot right after another channel's point)
+        nchain = 0
+        for spec in [dict(CHAIN_WITNESS["spec"]), dict(CHAIN_WITNESS_2["spec"])] + [make_chain_spec(rng) for _ in range(18 * k)]:
+            stream.append((spec, ["chained near-duplicates"]))
+            nchain += 1
         for spec, extra in stream:
+            if "chained near-duplicates" in extra and not flags()["kk"]:
+                # tree as found: the class is a defect of get_full_tlist (fixes/C14-8); only the model's merged grid and rows
+                # are compared (exact), the evolution is not judged
+                p, labels, _df, _m = build_processor(spec)
+                load_pulses(p, labels, spec)
+                d = self._model_grid_mismatch(ctx, p, spec)
+                res.case({"numeric": spec}, nontrivial=True, tags=["numeric", "chained near-duplicates: model only (tree as found)"])
+                if d and d != "skip":
+                    res.disagree({"numeric": spec}, "model's merged grid / rows", d, d, {"kind": "evolution", "spec": spec})
+                continue
             tags = ["numeric", f"subsystems={len(spec['dims'])}", f"channels={len(spec['chans'])}",
                     "state=" + ("dm" if spec["dm"] else "ket"), "drift=" + str(bool(spec["drift"]))] + extra
             for c in spec["chans"]:
@@ -2263,6 +2390,9 @@ class C14(PropertyCheck):
                          "run_state and save/reload (in varying order and subsets) against the expm product of the fields stated at "
                          "that moment, the model's merged grid / coefficients of the current channels, and a fresh processor built "
                          "from the current fields; processors constructed by every documented constructor form")
+        res.notes.append(f"chain stream: {nchain} processors with a chain of near-duplicates (p, p + a tol, p + b tol, a, b - a <= 0.9, "
+                         "b >= 1.1) over two or three channels; on a tree whose get_full_tlist compares with the last kept point "
+                         "(fixes/C14-8) all observables are judged, on the tree as found only the model's grid and rows")
         res.notes.append(f"aliasing stream: {nsh} processors in which ONE float64 array object is the coefficient of two or three channels "
                          "(full-length form on a grid of m points, short form on a grid of m+1 points) or one tlist object the grid of "
                          "two channels, 40 % of them - and a quarter of the ordinary random processors - with a call of the solver "
@@ -2486,6 +2616,8 @@ class C14(PropertyCheck):
         return False, "unknown witness kind"
 
     def finding_matches(self, witness, finding):
+        if finding.get("class") == "chained-near-duplicates":
+            return chained_duplicates(witness)
         if finding.get("class") == "grid-step-below-tol":
             return own_step_below_tol(witness)
         return PropertyCheck.finding_matches(self, witness, finding)
@@ -2535,6 +2667,9 @@ class C14(PropertyCheck):
             # known finding, members are evaluated and matched by finding_matches (KNOWN-FINDING).  Repaired tree
             # (fixes/C14-7, `cu`): the slot only loses its own slice (fill_catchup_near), members must pass
             tiny = [TINY_STEP_WITNESS] + [{"kind": "evolution", "spec": make_tiny_step_spec(rng)} for _ in range(3)]
+        if flags()["kk"] or class_recorded("chained-near-duplicates"):
+            # chains of near-duplicates: dropped by get_full_tlist as found (known class), represented by the repaired one
+            tiny = tiny + [CHAIN_WITNESS, CHAIN_WITNESS_2] + [{"kind": "evolution", "spec": make_chain_spec(rng)} for _ in range(6)]
         for w in tiny + history_family()[::3] + [make_history(rng) for _ in range(8)] + constructor_witnesses():
             f, d = self.oracle_replay(ctx, w)
             if f:
@@ -2590,6 +2725,8 @@ class C14(PropertyCheck):
                             continue
                     first.append({"kind": kind, "spec": add_const_channel(rng, base, shape=shape, value=val)})
         first += [NEAR_WITNESS, NEAR_WITNESS_2, INT_GRID_WITNESS, MIXED_GRID_WITNESS, SHARED_WITNESS, SOLVER_FIRST_WITNESS]
+        if flags()["kk"] or class_recorded("chained-near-duplicates"):
+            first += [CHAIN_WITNESS, CHAIN_WITNESS_2] + [{"kind": "evolution", "spec": make_chain_spec(rng)} for _ in range(12)]
         for pre in [None] + PRE_CALLS:            # the shared-amplitude processor after every kind of first call, both channel orders
             for rev in (False, True):
                 sp = json.loads(json.dumps(SHARED_WITNESS["spec"]))
